@@ -372,3 +372,63 @@ Proof.
   destruct (proj2 I _ _ Ho) as [_ Hj]. apply lookup_lt_is_Some in Hj. destruct Hj as [th Hj].
   exact (done_holds_nothing _ _ _ _ I Hj (Hall _ _ Hj) Ho).
 Qed.
+
+(* ------------------------------------------------------------------ 4. the predicates have teeth, the hypotheses are satisfiable *)
+
+(* Attach as it was before fix 6e19728 (D8), reduced to its afid part: the return for File == nil comes
+   before `defer aref.Unlock()` *)
+Definition prog_attach_D8 (afid : N) : prog :=
+  get_ref afid (fun r =>
+    match r with
+    | None => ret R_UNKNOWNFID 0
+    | Some (ap, s) =>
+        match s_file s with
+        | None => ret R_UNKNOWNFID 0
+        | Some _ => Unlock ap (ret R_OK 0)
+        end
+    end).
+
+Lemma D8_unbalanced : ~ balanced (prog_attach_D8 1) [].
+Proof.
+  intro H. unfold prog_attach_D8, get_ref in H. cbn in H. specialize (H (Some 5)). cbn in H.
+  destruct H as [_ H].
+  specialize (H {| s_ent := Some {| e_id := 1; e_dir := true |}; s_file := None; s_mode := 0 |}).
+  cbn in H. discriminate H.
+Qed.
+
+(* Create's error path as it was before fix e096cda (D9): delRef(parent) with the parent's SFid locked *)
+Definition prog_create_D9 (f : N) : prog :=
+  get_ref f (fun r =>
+    match r with
+    | None => ret R_UNKNOWNFID 0
+    | Some (p, _) => del_ref f false (fun _ => Unlock p (ret R_FSERR 0))
+    end).
+
+Lemma D9_hold_and_wait : ~ wf (prog_create_D9 0) [].
+Proof.
+  intro H. unfold prog_create_D9, get_ref in H. cbn in H. specialize (H (Some 5)). cbn in H.
+  destruct H as [_ [_ H]].
+  specialize (H {| s_ent := Some {| e_id := 1; e_dir := true |}; s_file := None; s_mode := 0 |}).
+  cbn in H. specialize (H (Some 5)). cbn in H. destruct H as [H _]. discriminate H.
+Qed.
+
+(* a reachable state in which one operation is inside a FileSys call on SFid 1 (holding its mutex), another
+   waits for that mutex, and a third has returned: attach(0) ran to completion, stat(0) entered Dirent.Stat,
+   clunk(0) looked the fid up and waits *)
+Definition ex_ops : list (op * list outcome) :=
+  [(OpAttach 0 NOFID, [OOk 0 true]); (OpStat 0, [OOk 0 false]); (OpClunk 0, [OOk 0 false])].
+Definition ex_sched : list nat := [0; 0; 0; 0; 0; 1; 1; 1; 1; 2; 2; 2]%nat.
+Definition ex_state : state := run ex_sched (init false ex_ops).
+
+Lemma ex_state_shape :
+  (exists th, threads ex_state !! 0%nat = Some th /\ is_done th = true) /\
+  (exists th, threads ex_state !! 1%nat = Some th /\ in_call_on th = Some (Some 1)) /\
+  (exists th, threads ex_state !! 2%nat = Some th /\ waits_for_lock th = Some 1 /\ is_done th = false) /\
+  owner ex_state !! 1 = Some 1%nat.
+Proof.
+  split; [|split; [|split]].
+  - eexists. split; [vm_compute; reflexivity | vm_compute; reflexivity].
+  - eexists. split; [vm_compute; reflexivity | vm_compute; reflexivity].
+  - eexists. split; [vm_compute; reflexivity | split; vm_compute; reflexivity].
+  - vm_compute. reflexivity.
+Qed.
